@@ -28,14 +28,29 @@ Proof.
   rewrite seq_app. simpl. f_equal. f_equal. f_equal. lia.
 Qed.
 
+(* the end points of the axis are not the origin *)
+Definition ends_ok (xs : list Q) : Prop := nthq xs 0 < 0 /\ 0 < nthq xs (length xs - 1).
+Lemma admissible_ends xs o h : admissible xs o h -> ends_ok xs.
+Proof.
+  intros (Hi & H1 & H2 & Hh & H0 & _). split.
+  - rewrite <- H0. apply incr_nth_lt; [exact Hi|lia|lia].
+  - rewrite <- H0. apply incr_nth_lt; [exact Hi|lia|lia].
+Qed.
+Lemma neq0_neg x : x < 0 -> ~ x == 0.
+Proof. intros H E. rewrite E in H. lra. Qed.
+Lemma neq0_pos x : 0 < x -> ~ x == 0.
+Proof. intros H E. rewrite E in H. lra. Qed.
+
 Section Measure.
   Variable mid : Q -> Q -> Q.
   Hypothesis mid_between : forall x y, x < y -> x < mid x y /\ mid x y < y.
-  Hypothesis mid_refl : forall x, mid x x == x.
+  Hypothesis mid_refl : forall x, ~ x == 0 -> mid x x == x.      (* only used at the two end points of the axis *)
   Hypothesis mid_proper : forall x x' y y', x == x' -> y == y' -> mid x y == mid x' y'.
   Variable mass : Q -> Q -> Q.
-  Hypothesis mass_add : forall a b c, a <= b -> b <= c -> mass a c == mass a b + mass b c.
-  Hypothesis mass_pos : forall a b, a <= b -> 0 <= mass a b.
+  (* additivity / positivity are only required of intervals that do not contain the origin, where a Levy measure is
+     finite (infinite-activity measures, VG and CGMY, have infinite mass on every neighbourhood of 0) *)
+  Hypothesis mass_add : forall a b c, a <= b -> b <= c -> (c < 0 \/ 0 < a) -> mass a c == mass a b + mass b c.
+  Hypothesis mass_pos : forall a b, a <= b -> (b < 0 \/ 0 < a) -> 0 <= mass a b.
   Hypothesis mass_proper : forall a a' b b', a == a' -> b == b' -> mass a b == mass a' b'.
 
   (* ---------- telescoping over consecutive intervals, any length *)
@@ -55,17 +70,19 @@ Section Measure.
   Lemma telescope (lo hi : nat -> Q) m : forall a, (1 <= m)%nat ->
     (forall k, (a <= k < a + m)%nat -> lo k <= hi k) ->
     (forall k, (a <= k)%nat -> (k + 1 < a + m)%nat -> hi k == lo (k + 1)%nat) ->
+    ((forall k, (a <= k < a + m)%nat -> hi k < 0) \/ (forall k, (a <= k < a + m)%nat -> 0 < lo k)) ->
     qsum (map (fun k => mass (lo k) (hi k)) (seq a m)) == mass (lo a) (hi (a + m - 1)%nat).
   Proof.
-    induction m as [|m IH]; intros a Hm Hle Heq; [lia|].
+    induction m as [|m IH]; intros a Hm Hle Heq Hside; [lia|].
     destruct m as [|m'].
     - simpl. replace (a + 1 - 1)%nat with a by lia. unfold qsum. simpl. lra.
     - change (seq a (S (S m'))) with (a :: seq (S a) (S m')). cbn [map]. unfold qsum at 1. cbn [fold_right]. fold (qsum (map (fun k => mass (lo k) (hi k)) (seq (S a) (S m')))).
-      rewrite IH; [|lia| |]; [|intros k Hk; apply Hle; lia|intros k H1 H2; apply Heq; lia].
+      rewrite IH; [|lia| | |]; [|intros k Hk; apply Hle; lia|intros k H1 H2; apply Heq; lia
+                                |destruct Hside as [Hs|Hs]; [left|right]; intros k Hk; apply Hs; lia].
       replace (S a + S m' - 1)%nat with (a + S (S m') - 1)%nat by lia.
       assert (E : hi a == lo (S a)) by (replace (S a) with (a + 1)%nat by lia; apply Heq; lia).
       rewrite (mass_proper (lo (S a)) (hi a) (hi (a + S (S m') - 1)%nat) (hi (a + S (S m') - 1)%nat)); [|symmetry; exact E|reflexivity].
-      symmetry. apply mass_add; [apply Hle; lia|].
+      symmetry. apply mass_add; [apply Hle; lia| |destruct Hside as [Hs|Hs]; [left|right]; apply Hs; lia].
       rewrite E. replace (a + S (S m') - 1)%nat with (S a + S m' - 1)%nat by lia.
       apply tele_le; [lia| |]; [intros k Hk; apply Hle; lia|intros k H1 H2; apply Heq; lia].
   Qed.
@@ -84,61 +101,80 @@ Section Measure.
     rewrite left_point_inner by lia. replace (k + 1 - 1)%nat with k by lia. reflexivity.
   Qed.
 
-  Lemma cell_lo_le xs k : incr xs -> (k < length xs)%nat ->
+  Lemma cell_lo_le xs k : incr xs -> ends_ok xs -> (k < length xs)%nat ->
     cell_lo mid xs k <= nthq xs k /\ ((1 <= k)%nat -> cell_lo mid xs k < nthq xs k) /\ ((1 <= k)%nat -> nthq xs (k - 1) < cell_lo mid xs k).
   Proof.
-    intros Hi Hk. unfold cell_lo. destruct k as [|k].
-    - unfold left_point. simpl Nat.pred. rewrite mid_refl. split; [lra|]. split; intros; lia.
+    intros Hi [E0 EN] Hk. unfold cell_lo. destruct k as [|k].
+    - unfold left_point. simpl Nat.pred. rewrite mid_refl by (apply neq0_neg; exact E0). split; [lra|]. split; intros; lia.
     - rewrite left_point_inner by lia. replace (S k - 1)%nat with k by lia.
       assert (L : nthq xs k < nthq xs (S k)) by (replace (S k) with (k + 1)%nat by lia; apply incr_nth_succ; [exact Hi|lia]).
       destruct (mid_between _ _ L). split; [lra|]. split; intros; assumption.
   Qed.
 
-  Lemma cell_hi_ge xs k : incr xs -> (k < length xs)%nat ->
+  Lemma cell_hi_ge xs k : incr xs -> ends_ok xs -> (k < length xs)%nat ->
     nthq xs k <= cell_hi mid xs k /\ ((k + 1 < length xs)%nat -> nthq xs k < cell_hi mid xs k /\ cell_hi mid xs k < nthq xs (k + 1)).
   Proof.
-    intros Hi Hk. unfold cell_hi. destruct (Nat.eq_dec (k + 1) (length xs)) as [E|E].
-    - rewrite right_point_last by exact E. rewrite mid_refl. split; [lra|]. intros; lia.
+    intros Hi [E0 EN] Hk. unfold cell_hi. destruct (Nat.eq_dec (k + 1) (length xs)) as [E|E].
+    - rewrite right_point_last by exact E.
+      rewrite mid_refl by (apply neq0_pos; replace k with (length xs - 1)%nat by lia; exact EN). split; [lra|]. intros; lia.
     - rewrite right_point_inner by lia.
       assert (L : nthq xs k < nthq xs (k + 1)) by (apply incr_nth_succ; [exact Hi|lia]).
       destruct (mid_between _ _ L). split; [lra|]. intros; split; assumption.
   Qed.
 
-  Lemma cell_lo_hi xs k : incr xs -> (k < length xs)%nat -> cell_lo mid xs k <= cell_hi mid xs k.
-  Proof. intros Hi Hk. destruct (cell_lo_le xs k Hi Hk) as [A _]. destruct (cell_hi_ge xs k Hi Hk) as [B _]. lra. Qed.
+  Lemma cell_lo_hi xs k : incr xs -> ends_ok xs -> (k < length xs)%nat -> cell_lo mid xs k <= cell_hi mid xs k.
+  Proof. intros Hi He Hk. destruct (cell_lo_le xs k Hi He Hk) as [A _]. destruct (cell_hi_ge xs k Hi He Hk) as [B _]. lra. Qed.
 
-  Lemma cell_lo_mono xs : incr xs -> forall k k', (k <= k')%nat -> (k' < length xs)%nat -> cell_lo mid xs k <= cell_lo mid xs k'.
+  Lemma cell_lo_mono xs : incr xs -> ends_ok xs -> forall k k', (k <= k')%nat -> (k' < length xs)%nat -> cell_lo mid xs k <= cell_lo mid xs k'.
   Proof.
-    intros Hi k k' Hle Hk'. induction k' as [|k' IH]; [replace k with 0%nat by lia; lra|].
+    intros Hi He k k' Hle Hk'. induction k' as [|k' IH]; [replace k with 0%nat by lia; lra|].
     destruct (Nat.eq_dec k (S k')) as [->|Hne]; [lra|].
     apply Qle_trans with (cell_lo mid xs k'); [apply IH; lia|].
-    apply Qle_trans with (cell_hi mid xs k'); [apply cell_lo_hi; [exact Hi|lia]|].
+    apply Qle_trans with (cell_hi mid xs k'); [apply cell_lo_hi; [exact Hi|exact He|lia]|].
     rewrite cell_share by lia. replace (k' + 1)%nat with (S k') by lia. lra.
   Qed.
 
   (* no overlap beyond end points: the cell of a state ends before the cell of every later state begins *)
-  Lemma cells_ordered xs k k' : incr xs -> (k < k')%nat -> (k' < length xs)%nat -> cell_hi mid xs k <= cell_lo mid xs k'.
+  Lemma cells_ordered xs k k' : incr xs -> ends_ok xs -> (k < k')%nat -> (k' < length xs)%nat -> cell_hi mid xs k <= cell_lo mid xs k'.
   Proof.
-    intros Hi Hlt Hk'. rewrite cell_share by lia. apply cell_lo_mono; [exact Hi|lia|exact Hk'].
+    intros Hi He Hlt Hk'. rewrite cell_share by lia. apply cell_lo_mono; [exact Hi|exact He|lia|exact Hk'].
   Qed.
 
-  Theorem rates_nonneg xs o k : incr xs -> (k < length xs)%nat -> 0 <= q_entry mid mass xs o k.
+  (* the cells of the states left of the origin lie strictly left of 0, those right of it strictly right of 0 *)
+  Lemma cell_side xs o : incr xs -> ends_ok xs -> (1 <= o)%nat -> (o + 1 < length xs)%nat -> nthq xs o == 0 ->
+    forall k, (k < length xs)%nat -> ((k < o)%nat -> cell_hi mid xs k < 0) /\ ((o < k)%nat -> 0 < cell_lo mid xs k).
   Proof.
-    intros Hi Hk. unfold q_entry. destruct (Nat.eqb k o); [lra|]. apply mass_pos. apply cell_lo_hi; assumption.
+    intros Hi He H1 H2 H0 k Hk. split; intros Hko.
+    - apply Qle_lt_trans with (cell_lo mid xs o); [apply cells_ordered; try assumption; lia|].
+      destruct (cell_lo_le xs o Hi He ltac:(lia)) as (_ & A & _). rewrite <- H0. apply A. lia.
+    - apply Qlt_le_trans with (cell_lo mid xs (o + 1)); [|apply cell_lo_mono; try assumption; lia].
+      destruct (cell_lo_le xs (o + 1) Hi He ltac:(lia)) as (_ & _ & A). rewrite <- H0.
+      replace o with (o + 1 - 1)%nat at 1 by lia. apply A. lia.
   Qed.
 
-  Lemma sum_cells xs a m : incr xs -> (1 <= m)%nat -> (a + m <= length xs)%nat ->
+  Theorem rates_nonneg xs o h k : admissible xs o h -> (k < length xs)%nat -> 0 <= q_entry mid mass xs o k.
+  Proof.
+    intros A Hk. pose proof (admissible_ends xs o h A) as He. destruct A as (Hi & H1 & H2 & Hh & H0 & _).
+    unfold q_entry. destruct (Nat.eqb_spec k o); [lra|].
+    destruct (cell_side xs o Hi He H1 H2 H0 k Hk) as [S1 S2].
+    apply mass_pos; [apply cell_lo_hi; assumption|].
+    destruct (Nat.lt_ge_cases k o); [left; apply S1; assumption|right; apply S2; lia].
+  Qed.
+
+  Lemma sum_cells xs a m : incr xs -> ends_ok xs -> (1 <= m)%nat -> (a + m <= length xs)%nat ->
+    ((forall k, (a <= k < a + m)%nat -> cell_hi mid xs k < 0) \/ (forall k, (a <= k < a + m)%nat -> 0 < cell_lo mid xs k)) ->
     qsum (map (fun k => mass (cell_lo mid xs k) (cell_hi mid xs k)) (seq a m)) == mass (cell_lo mid xs a) (cell_hi mid xs (a + m - 1)).
   Proof.
-    intros Hi Hm Hl. apply (telescope (cell_lo mid xs) (cell_hi mid xs)); [exact Hm| |].
-    - intros k Hk. apply cell_lo_hi; [exact Hi|lia].
+    intros Hi He Hm Hl Hs. apply (telescope (cell_lo mid xs) (cell_hi mid xs)); [exact Hm| | |exact Hs].
+    - intros k Hk. apply cell_lo_hi; [exact Hi|exact He|lia].
     - intros k H1 H2. rewrite cell_share by lia. reflexivity.
   Qed.
 
   Theorem sum_rates_is_intensity_1d xs o h : admissible xs o h ->
     qsum (q_vector mid mass xs o) == intensity1 mid mass xs o.
   Proof.
-    intros (Hi & Ho1 & Ho2 & Hh & H0 & Hm & Hp). unfold q_vector, intensity1.
+    intros A. pose proof (admissible_ends xs o h A) as He. destruct A as (Hi & Ho1 & Ho2 & Hh & H0 & Hm & Hp).
+    pose proof (cell_side xs o Hi He Ho1 Ho2 H0) as CS. unfold q_vector, intensity1.
     rewrite (seq_split3 (length xs) o) by lia. rewrite map_app. cbn [map]. rewrite qsum_app.
     unfold qsum at 2. cbn [fold_right]. fold (qsum (map (q_entry mid mass xs o) (seq (o + 1) (length xs - o - 1)))).
     unfold q_entry at 2. rewrite Nat.eqb_refl.
@@ -146,11 +182,12 @@ Section Measure.
     2:{ intros k Hk. apply in_seq in Hk. unfold q_entry. destruct (Nat.eqb_spec k o); [lia|reflexivity]. }
     rewrite (qsum_map_ext_in (q_entry mid mass xs o) (fun k => mass (cell_lo mid xs k) (cell_hi mid xs k)) (seq (o + 1) _)).
     2:{ intros k Hk. apply in_seq in Hk. unfold q_entry. destruct (Nat.eqb_spec k o); [lia|reflexivity]. }
-    rewrite !sum_cells by (try exact Hi; lia).
+    rewrite (sum_cells xs 0 o Hi He) by (try lia; left; intros k Hk; apply CS; lia).
+    rewrite (sum_cells xs (o + 1) (length xs - o - 1) Hi He) by (try lia; right; intros k Hk; apply CS; lia).
     replace (0 + o - 1)%nat with (o - 1)%nat by lia.
     replace (o + 1 + (length xs - o - 1) - 1)%nat with (length xs - 1)%nat by lia.
     assert (E1 : cell_lo mid xs 0 == headq xs).
-    { unfold cell_lo, left_point. simpl Nat.pred. rewrite mid_refl. rewrite headq_nth. reflexivity. }
+    { unfold cell_lo, left_point. simpl Nat.pred. rewrite mid_refl by (apply neq0_neg; apply He). rewrite headq_nth. reflexivity. }
     assert (E2 : cell_hi mid xs (o - 1) == h_left mid xs o).
     { unfold cell_hi, h_left. rewrite right_point_inner by lia. rewrite left_point_inner by lia.
       replace (o - 1 + 1)%nat with o by lia. apply mid_proper; [reflexivity|exact H0]. }
@@ -158,7 +195,7 @@ Section Measure.
     { unfold cell_lo, h_right. rewrite left_point_inner by lia. rewrite right_point_inner by lia.
       replace (o + 1 - 1)%nat with o by lia. apply mid_proper; [exact H0|reflexivity]. }
     assert (E4 : cell_hi mid xs (length xs - 1) == lastq xs).
-    { unfold cell_hi. rewrite right_point_last by lia. rewrite mid_refl. rewrite lastq_nth. reflexivity. }
+    { unfold cell_hi. rewrite right_point_last by lia. rewrite mid_refl by (apply neq0_pos; apply He). rewrite lastq_nth. reflexivity. }
     rewrite (mass_proper _ _ _ _ E1 E2), (mass_proper _ _ _ _ E3 E4). lra.
   Qed.
 
@@ -173,14 +210,14 @@ Section Measure.
     /\ cell_hi mid xs (o - 1) == h_left mid xs o /\ cell_lo mid xs (o + 1) == h_right mid xs o
     /\ h_left mid xs o < 0 /\ 0 < h_right mid xs o.
   Proof.
-    intros (Hi & Ho1 & Ho2 & Hh & H0 & Hm & Hp) n. subst n.
+    intros A n. pose proof (admissible_ends xs o h A) as He. destruct A as (Hi & Ho1 & Ho2 & Hh & H0 & Hm & Hp). subst n.
     split; [|split; [|split; [|split; [|split; [|split; [|split; [|split]]]]]]].
-    - intros k Hk. destruct (cell_lo_le xs k Hi Hk) as (A1 & A2 & _). destruct (cell_hi_ge xs k Hi Hk) as (B1 & B2).
+    - intros k Hk. destruct (cell_lo_le xs k Hi He Hk) as (A1 & A2 & _). destruct (cell_hi_ge xs k Hi He Hk) as (B1 & B2).
       split; [split; assumption|]. split; [exact A2|]. intros H; apply B2; exact H.
     - intros k Hk. apply cell_share. exact Hk.
     - intros k k' H1 H2. apply cells_ordered; assumption.
-    - unfold cell_lo, left_point. simpl Nat.pred. rewrite mid_refl. rewrite headq_nth. reflexivity.
-    - unfold cell_hi. rewrite right_point_last by lia. rewrite mid_refl. rewrite lastq_nth. reflexivity.
+    - unfold cell_lo, left_point. simpl Nat.pred. rewrite mid_refl by (apply neq0_neg; apply He). rewrite headq_nth. reflexivity.
+    - unfold cell_hi. rewrite right_point_last by lia. rewrite mid_refl by (apply neq0_pos; apply He). rewrite lastq_nth. reflexivity.
     - unfold cell_hi, h_left. rewrite right_point_inner by lia. rewrite left_point_inner by lia.
       replace (o - 1 + 1)%nat with o by lia. apply mid_proper; [reflexivity|exact H0].
     - unfold cell_lo, h_right. rewrite left_point_inner by lia. rewrite right_point_inner by lia.
@@ -262,6 +299,36 @@ Section Trunc.
   Qed.
 End Trunc.
 
+(* the same for a mass that is additive / non-negative only away from the origin; truncation bounds l < 0 < r *)
+Section TruncR.
+  Variable mass : Q -> Q -> Q.
+  Hypothesis mass_add : forall a b c, a <= b -> b <= c -> (c < 0 \/ 0 < a) -> mass a c == mass a b + mass b c.
+  Hypothesis mass_pos : forall a b, a <= b -> (b < 0 \/ 0 < a) -> 0 <= mass a b.
+  Hypothesis mass_proper : forall a a' b b', a == a' -> b == b' -> mass a b == mass a' b'.
+  Variables l r : Q.
+  Hypothesis l_neg : l < 0.
+  Hypothesis r_pos : 0 < r.
+
+  Lemma clip_neg x : x < 0 -> clip l r x < 0.
+  Proof. intros. unfold clip. qcases; lra. Qed.
+  Lemma clip_pos x : 0 < x -> 0 < clip l r x.
+  Proof. intros. unfold clip. qcases; lra. Qed.
+
+  Theorem tmass_add_r a b c : a <= b -> b <= c -> (c < 0 \/ 0 < a) ->
+    tmass mass l r a c == tmass mass l r a b + tmass mass l r b c.
+  Proof.
+    intros H1 H2 Hs. assert (LR : l <= r) by lra.
+    rewrite !(tmass_clip mass mass_proper l r LR) by lra.
+    apply mass_add; [apply clip_mono; assumption|apply clip_mono; assumption|].
+    destruct Hs; [left; apply clip_neg|right; apply clip_pos]; assumption.
+  Qed.
+  Theorem tmass_pos_r a b : a <= b -> (b < 0 \/ 0 < a) -> 0 <= tmass mass l r a b.
+  Proof.
+    intros H Hs. assert (LR : l <= r) by lra. rewrite (tmass_clip mass mass_proper l r LR) by exact H.
+    apply mass_pos; [apply clip_mono; assumption|]. destruct Hs; [left; apply clip_neg|right; apply clip_pos]; assumption.
+  Qed.
+End TruncR.
+
 Ltac try_eq x y := try (let E := fresh "E" in assert (E : x == y) by lra; rewrite E in *; clear E).
 Ltac eqs5 a b c lo hi :=
   try_eq a b; try_eq a c; try_eq a lo; try_eq a hi; try_eq b c; try_eq b lo; try_eq b hi; try_eq c lo; try_eq c hi; try_eq lo hi.
@@ -269,22 +336,22 @@ Ltac eqs5 a b c lo hi :=
 Section ChainRates.
   Variable mid : Q -> Q -> Q.
   Hypothesis mid_between : forall x y, x < y -> x < mid x y /\ mid x y < y.
-  Hypothesis mid_refl : forall x, mid x x == x.
+  Hypothesis mid_refl : forall x, ~ x == 0 -> mid x x == x.
   Hypothesis mid_proper : forall x x' y y', x == x' -> y == y' -> mid x y == mid x' y'.
   Variable mass : Q -> Q -> Q.
-  Hypothesis mass_add : forall a b c, a <= b -> b <= c -> mass a c == mass a b + mass b c.
-  Hypothesis mass_pos : forall a b, a <= b -> 0 <= mass a b.
+  Hypothesis mass_add : forall a b c, a <= b -> b <= c -> (c < 0 \/ 0 < a) -> mass a c == mass a b + mass b c.
+  Hypothesis mass_pos : forall a b, a <= b -> (b < 0 \/ 0 < a) -> 0 <= mass a b.
   Hypothesis mass_proper : forall a a' b b', a == a' -> b == b' -> mass a b == mass a' b'.
 
-  Theorem truncated_mass l r : l <= r ->
-    (forall a b c, a <= b -> b <= c -> tmass mass l r a c == tmass mass l r a b + tmass mass l r b c)
-    /\ (forall a b, a <= b -> 0 <= tmass mass l r a b)
+  Theorem truncated_mass l r : l < 0 -> 0 < r ->
+    (forall a b c, a <= b -> b <= c -> (c < 0 \/ 0 < a) -> tmass mass l r a c == tmass mass l r a b + tmass mass l r b c)
+    /\ (forall a b, a <= b -> (b < 0 \/ 0 < a) -> 0 <= tmass mass l r a b)
     /\ (forall a a' b b', a == a' -> b == b' -> tmass mass l r a b == tmass mass l r a' b')
     /\ (forall a b, l <= a -> a <= b -> b <= r -> tmass mass l r a b == mass a b)
     /\ (forall a b, a <= b -> Qmaxb a l <= Qminb b r -> tmass mass l r a b == mass (Qmaxb a l) (Qminb b r)).
   Proof.
-    intros H. split; [intros; apply tmass_add; assumption|].
-    split; [intros; apply tmass_pos; assumption|].
+    intros Hl Hr. assert (H : l <= r) by lra. split; [intros; apply tmass_add_r; assumption|].
+    split; [intros; apply tmass_pos_r; assumption|].
     split; [intros; apply tmass_proper; assumption|].
     split; [intros; apply tmass_inside; assumption|intros; apply tmass_is_intersection; assumption].
   Qed.
@@ -299,12 +366,15 @@ Section ChainRates.
     assert (LR : headq xs <= lastq xs).
     { destruct A as (Hi & Ho1 & Ho2 & _). rewrite headq_nth, lastq_nth.
       apply Qlt_le_weak. apply incr_nth_lt; [exact Hi|lia|lia]. }
-    assert (MA : forall a b c, a <= b -> b <= c -> m a c == m a b + m b c) by (intros; apply tmass_add; assumption).
-    assert (MP : forall a b, a <= b -> 0 <= m a b) by (intros; apply tmass_pos; assumption).
+    pose proof (admissible_ends xs o h A) as He.
+    assert (Ln : headq xs < 0) by (rewrite headq_nth; apply He).
+    assert (Rp : 0 < lastq xs) by (rewrite lastq_nth; apply He).
+    assert (MA : forall a b c, a <= b -> b <= c -> (c < 0 \/ 0 < a) -> m a c == m a b + m b c) by (intros; apply tmass_add_r; assumption).
+    assert (MP : forall a b, a <= b -> (b < 0 \/ 0 < a) -> 0 <= m a b) by (intros; apply tmass_pos_r; assumption).
     assert (MR : forall a a' b b', a == a' -> b == b' -> m a b == m a' b') by (intros; apply tmass_proper; assumption).
     split; [|split].
     - apply (sum_rates_is_intensity_1d mid) with (h := h); assumption.
-    - intros k Hk. destruct A as (Hi & _). apply (rates_nonneg mid); assumption.
+    - intros k Hk. apply (rates_nonneg mid) with (h := h); assumption.
     - intros k Hk Hne. unfold q_entry. destruct (Nat.eqb_spec k o); [contradiction|].
       pose proof (cells_tile mid mid_between mid_refl mid_proper xs o h A) as T. cbv zeta in T.
       destruct T as (T1 & T2 & T3 & T4 & T5 & _). destruct A as (Hi & Ho1 & Ho2 & _).
